@@ -30,6 +30,7 @@ CLAIMED = {
              "classes occur; the header-difference classification across commits accepts exactly the legal header transitions "
              "(Properties/C17Step: sound and complete w.r.t. Spec.HeaderStep, which is run on consecutive headers of SQLite-written "
              "histories); the WAL-index (-shm) header (Properties/C17WalIndex): every field of both copies is the value at its wal.c offset in the file's byte order, accepted iff 136 bytes with version 3007000 in both copies, error class determined. "
+             "The b-tree page header classes and the WAL-index header classes are regenerated from the Python source on every run and proved equal to the model for every buffer (Properties/GenPage), like the four file-header classes (GenHeader). "
              "Tied by correspondence over field perturbations (every value of the 1- and 2-byte fields), per-commit "
              "PRAGMA values of WAL histories (with and without store_in_memory, several schema changes per commit) and SQLite-written -shm headers.",
         design="§9 C17", note=NOTE + "reserved-bytes-per-page != 0 is refused by the tool although SQLite allows it (stated assumption).", technique=T),
@@ -61,8 +62,13 @@ CLAIMED = {
         text="Theorems on the model of the ordinary-table SQL parser: affinity rules equal SQLite's for every typetoken except NOT_SPECIFIED "
              "(counterexample kept), the closing-parenthesis scanner on balanced text, name/affinity recovery for Simple column lists. Schema "
              "rows per version by db.dump / vh.dump correspondence. Model tied to OrdinaryTableRow/ColumnDefinition by correspondence on "
-             "grammar-generated DDL; oracle: PRAGMA table_xinfo, affinity probing, sqlite_master per WAL commit.",
-        design="§9 C07", note=NOTE + "partial: Index/View/Trigger/Virtual row SQL parsing is not modelled; open findings C07-01..15.", technique=T + "; DDL grammar generator"),
+             "grammar-generated DDL; oracle: PRAGMA table_xinfo, affinity probing, sqlite_master per WAL commit. Index / view / trigger / "
+             "virtual-table row constructors and the row dispatch of MasterSchema.__init__ are modelled too (Model/SchemaRows, Properties/C07Rows, "
+             "23 theorems: view and trigger rows accepted and reported unchanged for every SQL text, index rows for every name quoting style / "
+             "capitalisation of ON / whitespace, internal autoindex rows flagged, module name of virtual tables, whatever is accepted is reported "
+             "as the row SQLite stored; full statements refuted with witnesses replayed on the code), tied by ddl.row / ddl.schema correspondence "
+             "on statements as SQLite stores them.",
+        design="§9 C07, §17", note=NOTE + "partial: indexed-column lists, WHERE clauses, view SELECTs, trigger bodies and module arguments are opaque text to the code and to the claim; comments inside the gaps of CREATE INDEX / VIRTUAL TABLE by correspondence only; open findings C07-03/09/13/17/19 (and C07-20/21/22 until repaired).", technique=T + "; DDL grammar generator"),
     "C04": dict(
         text="Theorems decided over the regenerated table of every file-system call site under sqlite_dissect/: every site whose path can "
              "derive from evidence only reads or stats and opens 'r'/'rb'; sqlite3.connect gets output paths only; every mutating site takes its "
@@ -78,8 +84,8 @@ CLAIMED = {
              "over the option lattice in fresh subprocesses; exported CSV/SQLite rows compared with API iteration.",
         design="§9 C12", note=NOTE + "partial: row values are C11; text/XLSX compared at entry level; multi-input runs at validation level; open findings C12-F1..F5.", technique="Lean 4 theorems over hand-written CLI model + AST-translated option table (translator options.py) + subprocess correspondence"),
     "C18": dict(
-        text="Theorems bounding the model's loops independently of damaged size fields: freeblock walk ends within 65537 steps with strictly ascending offsets, accepted overflow chains visit pairwise distinct pages and never exhaust their fuel, the expected-overflow count is a closed form, carving completes on arbitrary bytes (C08.completes), the journal carver never reads past the end; the b-tree walk of the repaired code (fix cbbc570: a page reached twice in one descent is a parse error) constructs no page twice, its log of constructions is duplicate free on success and on failure, and it starts at most D constructions on a D-page version whatever the child pointers say (btree_walk_constructions_le_db / _wal; the pre-repair construction took fanout^depth steps on a DAG, witness dag_refused); the WAL-index scan performs at most (size-136)/4 + size/2 + 2 reads on every file (C18Scan); recursion through freelist trunk pointers is bounded by the recursion-limit parameter (RecursionError). Tied by db.dump / vh.dump correspondence on targeted corruptions of every link / count / size field (cycles among later freeblocks, overflow cycles with a consistent huge size per cell kind, shared children and appended chains of interior pages), pairs, truncations, bit flips and damaged WALs, each run through parsing, census, version history, signatures, carving and iteration in a worker under a time limit (max(10 s, 200 x clean run)) and an address-space limit.",
-        design="§9 C18", note=NOTE + 'partial: seconds and RSS are measured, not proved; cost of the recursion-limit-bounded freelist trunk walk is large but finite; many cells sharing one long overflow chain cost cells x pages (quadratic for a crafted file; each damaged cell at most one pass); the signature / carving stages on damaged input are covered by the resource oracle, the correspondence covers parsing and version history.', technique=T + "; targeted byte-level corruption with resource-limited workers"),
+        text="Theorems bounding the model's loops independently of damaged size fields: freeblock walk ends within 65537 steps with strictly ascending offsets, accepted overflow chains visit pairwise distinct pages and never exhaust their fuel, the expected-overflow count is a closed form, carving completes on arbitrary bytes (C08.completes), the journal carver never reads past the end; the b-tree walk of the repaired code (fix cbbc570: a page reached twice in one descent is a parse error) constructs no page twice, its log of constructions is duplicate free on success and on failure, and it starts at most D constructions on a D-page version whatever the child pointers say (btree_walk_constructions_le_db / _wal; the pre-repair construction took fanout^depth steps on a DAG, witness dag_refused); the WAL-index scan performs at most (size-136)/4 + size/2 + 2 reads on every file (C18Scan); recursion through freelist trunk pointers is bounded by the recursion-limit parameter (RecursionError); the signature regular expression (Properties/C18Regex, over a counted twin of the matcher that provably computes the same matches): at most 20*columns+1 steps per attempt and (length+1) times that per scan on EVERY subject when no column lists both blob and text, while the unrestricted linear bound is REFUTED - n blob-and-text columns cost exactly 11*2^n-10 steps on a subject of n bytes (open finding C18-R1, reproduced on the real code on every run with two controls). Tied by db.dump / vh.dump correspondence on targeted corruptions of every link / count / size field (cycles among later freeblocks, overflow cycles with a consistent huge size per cell kind, shared children and appended chains of interior pages), pairs, truncations, bit flips and damaged WALs, each run through parsing, census, version history, signatures, carving and iteration in a worker under a time limit (max(10 s, 200 x clean run)) and an address-space limit.",
+        design="§9 C18", note=NOTE + 'partial: seconds and RSS are measured, not proved; cost of the recursion-limit-bounded freelist trunk walk is large but finite; many cells sharing one long overflow chain cost cells x pages (quadratic for a crafted file; each damaged cell at most one pass); the signature / carving stages on damaged input are covered by the resource oracle, the correspondence covers parsing and version history; open finding C18-R1 (exponential backtracking of the carving regex on tables whose columns hold both TEXT and BLOB; pinned by the repo\'s tests, not repaired).', technique=T + "; targeted byte-level corruption with resource-limited workers"),
     "C08": dict(
         text="Theorems over the model of SignatureCarver / CarvedRecord / the iterator's carving fold (Properties/C08): carving COMPLETES on every region (unallocated area, freelist page, journal image, freeblock; every signature incl. one-column tables) - result or, beyond 2^53 bytes, the model's own outside-model mark, no exception class escapes; every carved cell's file offset and bytes are backed by the region (freeblocks through content_start_offset); the digest is the record's bytes; pairwise distinct digests over a history (no re-report); the journal carver never reads past the end. Former escapes are kept as fixed_* witnesses. Tied by carve.record / region / table / iter / journal correspondence against the real carver on generated regions and SQLite-written databases, WALs and journals.",
         design="§9 C08", note=NOTE + "partial: 'inside free space of a page of that table, never inside a live cell' by oracle (independent page reader) only; sizes < 2^53; Python re validated, not verified.", technique=T),
@@ -87,7 +93,7 @@ CLAIMED = {
         text="Theorems (Properties/C09): recall of an intact record at record and region level without assuming that carving completed (recall_region_total), first-match scan lemma, a generated pattern's match is exactly the serial-type header (self-delimiting varints), first column recovered from the freeblock size or a single possible type, digests separate rows at different places; recall through the iterator's digest dictionary holds for pairwise distinct digests and is refuted in general by Lean witnesses (identical bytes; the one-column collision C09-05). Tied by carving correspondence; deletion grid over page size x column shape x position x residue location (freeblock, unallocated, freelist page, WAL frames, journals incl. pages cut off the end of the file) with an independent before/after byte reader.",
         design="§9 C09", note=NOTE + 'partial: recall through the freeblock/partial pattern at region level is decided by the grid, not by a theorem; open findings C09-02/03/05.', technique=T),
     "C06": dict(
-        text="Theorems on the page-layout check (Properties/C06: stable sort, telescoping identity, every SQLite-well-formed layout accepted with fragment total = header count, accepted layouts tile [content offset, page end) without overlap or gap, strict checking irrelevant on accepted pages, freeblock walk bounded and ascending) and the page round trip (Properties/C01Tree: a page laid out as Spec.PageLaidOut — header, pointer array, cells with SQLite's 4-byte minimum allocation, freeblock chain, <= 60 fragment bytes — is parsed to exactly its cells and freeblocks). Spec.PageLaidOut is run (executable form, proved equivalent) on the pages SQLite wrote. Page census tied by full-dump correspondence and SQLite's dbstat / page_count / freelist_count / integrity_check, per version for WAL histories.",
+        text="Theorems on the page-layout check (Properties/C06: stable sort, telescoping identity, every SQLite-well-formed layout accepted with fragment total = header count, accepted layouts tile [content offset, page end) without overlap or gap, strict checking irrelevant on accepted pages, freeblock walk bounded and ascending) and the page round trip (Properties/C01Tree: a page laid out as Spec.PageLaidOut — header, pointer array, cells with SQLite's 4-byte minimum allocation, freeblock chain, <= 60 fragment bytes — is parsed to exactly its cells and freeblocks). Spec.PageLaidOut is run (executable form, proved equivalent) on the pages SQLite wrote. Page census tied by full-dump correspondence and SQLite's dbstat / page_count / freelist_count / integrity_check, per version for WAL histories. BTreePageHeader / LeafPageHeader / InteriorPageHeader and the body of OverflowPage.__init__ are regenerated from the Python source on every run and proved equal to the model parsers for every page (Properties/GenPage).",
         design="§9 C06", note=NOTE + 'census (Properties/C06Census): an accepted census has exactly the keys 1..N, the class of each page is that of the last source listing it, and under pairwise disjoint sources (what SQLite guarantees; measured against dbstat) every page is listed exactly once with the class of that source; the two checks of the code alone do NOT detect a page listed twice when all of 1..N are covered (census_accepts_iff_pages_covered, machine-checked witness) - relevant to damaged files only.', technique=T),
     "C01": dict(
         text='Theorems (Properties/C01Tree, C01Cell, C01): a table b-tree laid out in the file as SQLite lays it out (Spec.TreeLaidOut over Spec.PageLaidOut over Spec.writeTableLeafCell / encodeRecord, any depth, overflow chains, page 1 included) is parsed, given the stated recursion budget, into exactly its leaf cells in traversal order, each with the stored rowid and column values (table_tree_rows); cell- and page-level round trips; codecs (C15), payload split / chain shape (C16), layout acceptance (C06). The specification is validated against files SQLite wrote (every sampled live cell and page satisfies it). Full-pipeline executable model compared section by section with the implementation over the whole configuration grid, rows compared with SQLite.',
